@@ -1,0 +1,93 @@
+//go:build verif
+
+package main
+
+import (
+	"bufio"
+	"encoding/json"
+	"fmt"
+	"io"
+	"log"
+	"os"
+	"strings"
+	"time"
+
+	"github.com/fabiolb/fabio/config"
+	"github.com/fabiolb/fabio/metrics"
+	"github.com/fabiolb/fabio/registry"
+	"github.com/fabiolb/fabio/registry/consul"
+	"github.com/fabiolb/fabio/route"
+)
+
+// Verification driver (build tag verif) for property C01. Only when FABIO_VERIF_DRIVER=c01 is set, the
+// process connects the real consul backend to the Consul HTTP API named in FABIO_VERIF_C01 (a JSON
+// document, see verifC01Cfg), runs the real watchBackend loop in a goroutine and then serves commands on
+// stdin: "dump" prints the canonical dump of route.GetTable() as one JSON line, "quit"/EOF exits.
+// Nothing here changes behaviour of a normal fabio process.
+
+type verifC01Cfg struct {
+	Addr      string   `json:"addr"`
+	TagPrefix string   `json:"prefix"`
+	Status    []string `json:"status"`
+	Strict    bool     `json:"strict"`
+	KVPath    string   `json:"kvpath"`
+	PollMS    int      `json:"poll_ms"`
+	Monitors  int      `json:"monitors"`
+	Debug     bool     `json:"debug"`
+}
+
+func init() {
+	if os.Getenv("FABIO_VERIF_DRIVER") != "c01" {
+		return
+	}
+	var vc verifC01Cfg
+	if err := json.Unmarshal([]byte(os.Getenv("FABIO_VERIF_C01")), &vc); err != nil {
+		fmt.Fprintln(os.Stderr, "verif c01: bad FABIO_VERIF_C01:", err)
+		os.Exit(2)
+	}
+	if !vc.Debug {
+		log.SetOutput(io.Discard)
+	}
+	cfg := &config.Config{}
+	cfg.Registry.Backend = "consul"
+	cfg.Log.RoutesFormat = "delta"
+	cc := &cfg.Registry.Consul
+	cc.Addr = vc.Addr
+	cc.Scheme = "http"
+	cc.KVPath = vc.KVPath
+	cc.NoRouteHTMLPath = "/verif/noroute.html"
+	cc.TagPrefix = vc.TagPrefix
+	cc.ServiceStatus = vc.Status
+	cc.ChecksRequired = "one"
+	if vc.Strict {
+		cc.ChecksRequired = "all"
+	}
+	cc.ServiceMonitors = vc.Monitors
+	cc.PollInterval = time.Duration(vc.PollMS) * time.Millisecond
+
+	be, err := consul.NewBackend(cc)
+	if err != nil {
+		fmt.Fprintln(os.Stderr, "verif c01: NewBackend:", err)
+		os.Exit(2)
+	}
+	registry.Default = be
+	first := make(chan bool)
+	go watchBackend(cfg, metrics.DiscardProvider{}, first)
+
+	out := bufio.NewWriter(os.Stdout)
+	fmt.Fprintln(out, "ready")
+	out.Flush()
+	sc := bufio.NewScanner(os.Stdin)
+	for sc.Scan() {
+		switch strings.TrimSpace(sc.Text()) {
+		case "dump":
+			b, _ := json.Marshal(route.VerifDump(route.GetTable(), false))
+			out.Write(b)
+			out.WriteByte('\n')
+			out.Flush()
+		case "quit":
+			os.Exit(0)
+		}
+	}
+	os.Exit(0)
+}
